@@ -594,6 +594,8 @@ class Engine:
                 if e.lazy is not None:
                     return self.materialize(fty, '%s.%s.%d' % (e.lazy, v.vname, idx))
                 raise Inconclusive('missing field %s of %r' % (key, e))
+            if isinstance(v, _ObjDowncast):
+                return v.obj
             if isinstance(v, ClosureV):
                 return v.caps[idx]
             if isinstance(v, (BigV, IntV)) and idx == 0:
@@ -607,6 +609,9 @@ class Engine:
         if k == 'downcast':
             if isinstance(v, EnumV):
                 return _Downcast(v, el[1])
+            if isinstance(v, ObjV) and type(v.obj) in SPECIAL_DISCR:
+                # model objects that stand for a two-variant std enum (map Entry): the payload of either variant is the object
+                return _ObjDowncast(v)
             raise Inconclusive('downcast of %r' % (v,))
         if k == 'index':
             if isinstance(v, VecV):
@@ -1484,6 +1489,13 @@ def is_generic_param(t):
 VALUE_TYPES = {}
 # single-field tuple structs of external crates whose payload type is needed to compare / key lazily created values
 EXTERNAL_NEWTYPES = {'PaddedPieceSize': 'u64', 'UnpaddedPieceSize': 'u64', 'BigIntDe': 'BigInt', 'BigUintDe': 'BigUint'}
+
+
+class _ObjDowncast:
+    __slots__ = ('obj',)
+
+    def __init__(self, obj):
+        self.obj = obj
 
 
 class _Downcast:
